@@ -48,6 +48,7 @@ struct DWorld : World {
 			// handler behaviour of a record created by this op: b = return selector | set_id selector << 8 | reenter << 16 | reenter id << 20
 			op.b = r.below(8) | (r.below(4) << 8) | ((r.chance(1, 5) ? 1 + r.below(2) : 0) << 16) | (r.below(12) << 20);
 			op.c = r.below(9);                  // reserve width
+			if (op.kind == OP_RESERVE && r.chance(1, 40)) op.b |= 0x3000;      // burst through the whole one-byte id space
 			if (allocf && r.chance(1, 4)) { op.fault = FL_ALLOC; op.fa = r.range(1, 2); }
 			p.ops.push_back(op);
 		}
@@ -278,6 +279,30 @@ struct DWorld : World {
 			}
 			case OP_RESERVE: {
 				size_t width = (size_t) op.c % 9;
+				if ((op.b & 0xf000) == 0x3000 && !failn) {
+					// burst on a one-byte id space: reserve until refused (127 ids), release a random half, reserve again -
+					// the ids handed out after the highest one was used must be ones that are free
+					st.hit("probe:reply_id_space_exhausted");
+					auto one = [&]() -> bool {
+						command *c; { Sut s; c = mpt_command_reserve(&waitarr, 1); }
+						if (!c) return false;
+						if (reserved.count(c->id)) fail("duplicate-reply-id", "reply id %lx handed out while still outstanding (%zu outstanding)", (unsigned long) c->id, reserved.size());
+						if (!c->id || c->id > 0x7f) fail("reply-id-range", "reply id %lx does not fit one header byte", (unsigned long) c->id);
+						reserved.insert(c->id); return true;
+					};
+					int got = 0; while (got < 200 && one()) ++got;
+					size_t small = 0; for (uintptr_t rid : reserved) if (rid <= 0x7f) ++small;
+					if (small < 127) fail("refused-valid", "one-byte reply ids: reservation refused with only %zu of 127 ids outstanding", small);
+					uint64_t x = (uint64_t) op.a * 0x9e3779b97f4a7c15ull + 1; int released = 0;
+					for (auto it = reserved.begin(); it != reserved.end(); ) { x = x * 6364136223846793005ull + 1442695040888963407ull; if (*it <= 0x7f && ((x >> 33) & 1)) { command *c; { Sut s; c = mpt_command_get(&waitarr, *it); } if (!c) fail("lost-registration", "outstanding reply id %lx does not resolve", (unsigned long) *it); c->cmd = 0; it = reserved.erase(it); ++released; } else ++it; }
+					int again = 0; while (again < released && one()) ++again;
+					if (again < released) { std::string freeids; for (uintptr_t i = 1; i <= 0x7f; ++i) if (!reserved.count(i)) { char b[8]; snprintf(b, sizeof b, " %lx", (unsigned long) i); freeids += b; }
+						const buffer *wb = wa.buf; size_t slots = wb ? wb->_used / sizeof(command) : 0; size_t act = 0; for (size_t k = 0; k < slots; ++k) if (((const command *) (wb + 1))[k].cmd) ++act;
+						fail("refused-valid", "one-byte reply ids: %d ids were released but only %d could be reserved again; free ids:%s; table has %zu slots, %zu active, %zu outstanding in the model", released, again, freeids.c_str(), slots, act, reserved.size()); }
+					for (uintptr_t rid : reserved) { command *f; { Sut s; f = mpt_command_get(&waitarr, rid); } if (!f) fail("lost-registration", "outstanding reply id %lx no longer resolves after the burst", (unsigned long) rid); }
+					log.ev("RESERVE burst: %d reserved, %d released, %d reserved again, %zu outstanding", got, released, again, reserved.size());
+					outcome = 2; break;
+				}
 				command *c; { Sut s(failn); c = mpt_command_reserve(&waitarr, width); fired = g.fired; }
 				log.ev("RESERVE width %zu%s -> %s id %lx", width, fired ? " allocfail" : "", c ? "ok" : "null", c ? (unsigned long) c->id : 0ul);
 				if (!c) { if (width && !fired && reserved.size() < 100) fail("refused-valid", "reservation of a reply id (width %zu) refused with %zu outstanding", width, reserved.size()); break; }
